@@ -32,6 +32,7 @@ API
         observations kept on the Script (all from the real calls, i.e. what the kernel / OpenSSL really did):
           sc.sent   bytearray   bytes accepted by the real send() calls, in order (data[:count])
           sc.recvd  bytearray   bytes returned by the real recv() calls, in order
+          sc.wire   bytearray   both of the above interleaved chunk by chunk in call order
           sc.calls  {"send": n, "recv": n, "handshake": n}  calls seen so far (= index of the next call)
           sc.fired  [(op, index, action)]  injected (non-pass) actions that took effect
           sc.stats  dict counter: partial_sends (count < len(data), injected or kernel-made), real_partial_sends (the
@@ -107,6 +108,7 @@ class Script:
         self.calls = {"send": 0, "recv": 0, "handshake": 0}
         self.sent = bytearray()
         self.recvd = bytearray()
+        self.wire = bytearray()   # sent and received chunks interleaved in call order (what a shared rx+tx wire log holds)
         self.fired = []
         self.stats = {}
         self.log = []
@@ -197,6 +199,7 @@ class Script:
         self._pending_write = False
         if count:
             self.sent += memoryview(data)[:count]
+            self.wire += memoryview(data)[:count]
         if count < n:
             self._bump("partial_sends")
             if count < k:
@@ -229,6 +232,7 @@ class Script:
             raise
         if data:
             self.recvd += data
+            self.wire += data
             if kind == "short" and len(data) == size and size < bufsize:
                 self._bump("short_reads")
         else:
